@@ -100,3 +100,33 @@ def basis_of(cfg):
 
 def specs(name, cfgs, maker, weight=1.0):
     return [ObSpec(name, cfg, (lambda cfg=cfg: maker(**cfg)), weight) for cfg in cfgs]
+
+
+def select(arrs, idx):
+    """arrs[idx] for a symbolic integer idx as an element-wise ITE chain (concrete idx: plain indexing)"""
+    if not isinstance(idx, Sym):
+        return arrs[int(idx)]
+    if idx.is_const():
+        return arrs[int(idx.cval())]
+    out = np.asarray(arrs[-1], dtype=object)
+    for k in range(len(arrs) - 2, -1, -1):
+        a = np.asarray(arrs[k], dtype=object)
+        if a.ndim == 0:
+            out = np.asarray(ite(idx == k, a[()], out[()]), dtype=object)
+            continue
+        new = np.empty(a.shape, dtype=object)
+        for pos in np.ndindex(a.shape):
+            new[pos] = ite(idx == k, a[pos], out[pos])
+        out = new
+    if out.ndim == 0:
+        return out[()]
+    return out.view(SymNd)
+
+
+def in_range(i, lo, hi):
+    """lo <= i < hi as a formula / bool"""
+    return SBool.of(i >= lo) & SBool.of(i < hi)
+
+
+def flat(a):
+    return np.ndarray.reshape(np.asarray(a, dtype=object), -1) if nd.has_sym(a) else np.asarray(a).reshape(-1)
